@@ -34,4 +34,8 @@ Stmt(st) == /\ phase = "section" /\ StmtDom(st, env) /\ KbDom(st)
             /\ secs' = [secs EXCEPT ![Len(secs)].cmds = Append(@, Expected(st, env))]
             /\ UNCHANGED <<env, iopts, sopts, phase, kbs>>
 Refuse(kind) == /\ phase = "section" /\ kind \in Unsupported /\ phase' = "refused" /\ UNCHANGED <<env, iopts, sopts, secs, kbs>>
+\* ONE parser object, several command files (BDParser.parse documents a clean-up "before next parsing"): the next file starts from NOTHING -
+\* no option, constant, key blob or section of the file before it survives; what a program means does not depend on what was parsed before it
+NextFile == /\ phase \in {"section", "refused"}
+            /\ env' = Empty /\ iopts' = <<>> /\ sopts' = <<>> /\ secs' = <<>> /\ phase' = "defs" /\ kbs' = <<>>
 =============================================================================
